@@ -211,7 +211,7 @@ type clRun struct {
 	verifyReads  int
 	lastPromoted string
 	hooks        map[string]int
-	httpDrops    map[string]*[3]int
+	httpDrops    map[string]*[4]int
 	everWild     []bool
 	reverted     bool
 	foldsAtWO    map[string]int64
@@ -477,7 +477,7 @@ func (cr *clRun) exec(i int, op Op) {
 		// the next B HTTP exchanges between the controller and replica A lose their
 		// request (F=false) or their response after the handler ran (F=true)
 		rn := cr.rep(op.A)
-		cr.armHTTPFault(rn, int(op.B), op.F, int(op.C))
+		cr.armHTTPFault(rn, int(op.B), op.F, int(op.C), op.D == 1) // D=1: the replica answers 500 at once instead of losing the call
 		cr.faultsActive = true
 		cr.note("httpfault", fmt.Sprintf("%s-%v", rn.name, op.F))
 	case "hook":
@@ -577,12 +577,12 @@ func (cr *clRun) armHook(rn *repNode, site, effect int) {
 	cr.res.stat("hook_armed", 1)
 }
 
-func (cr *clRun) armHTTPFault(rn *repNode, n int, dropResp bool, skip int) {
+func (cr *clRun) armHTTPFault(rn *repNode, n int, dropResp bool, skip int, errReply bool) {
 	if n <= 0 {
 		n = 1
 	}
 	if cr.httpDrops == nil {
-		cr.httpDrops = map[string]*[3]int{}
+		cr.httpDrops = map[string]*[4]int{}
 		cr.c.httpFault = func(r *simrt.HTTPReqInfo) simrt.HTTPVerdict {
 			var peer string
 			switch {
@@ -613,17 +613,24 @@ func (cr *clRun) armHTTPFault(rn *repNode, n int, dropResp bool, skip int) {
 				cr.res.stat("fault_http_response_dropped", 1)
 				return simrt.HTTPDropResp
 			}
+			if d[3] > 0 && r.From != nil && r.From.Name == "ctrl" {
+				d[3]--
+				cr.res.stat("fault_http_error_reply", 1)
+				return simrt.HTTPFail
+			}
 			return simrt.HTTPDeliver
 		}
 	}
 	cr.c.mu.Lock()
 	d := cr.httpDrops[rn.name]
 	if d == nil {
-		d = &[3]int{}
+		d = &[4]int{}
 		cr.httpDrops[rn.name] = d
 	}
 	d[2] = skip
-	if dropResp {
+	if errReply {
+		d[3] += n
+	} else if dropResp {
 		d[1] += n
 	} else {
 		d[0] += n
@@ -1007,12 +1014,12 @@ func (cr *clRun) onQuiescent() {
 		cr.viol(map[bool]string{true: "C07", false: "C18"}[cr.s.Prop == "C07"], "more-than-one-wo-replica", "%d replicas are WO: %v", wo, list)
 		return
 	}
-	if c.ctrl.RWReplicaCount != rwc {
+	// C03: status agrees with the count
+	wantRO := rwc < cr.quorum()
+	if c.ctrl.RWReplicaCount != rwc && !(cr.s.Prop == "C03" && c.ctrl.ReadOnly != wantRO) {
 		cr.viol("C18", "rw-count-mismatch", "controller reports RWReplicaCount=%d but %d entries are RW: %v", c.ctrl.RWReplicaCount, rwc, list)
 		return
 	}
-	// C03: status agrees with the count
-	wantRO := rwc < cr.quorum()
 	if c.ctrl.ReadOnly != wantRO {
 		cr.viol("C03", "readonly-flag-stale", "ReadOnly=%v with %d RW replicas, RF=%d (quorum %d): %v", c.ctrl.ReadOnly, rwc, c.rf, cr.quorum(), list)
 		return
@@ -1716,6 +1723,9 @@ func (clustersim) Generate(rng *Rand, prop, tier string) *Script {
 	if prop == "C02" || prop == "C05" {
 		rf = []int{2, 3, 3, 3, 4, 5}[rng.Intn(6)]
 	}
+	if prop == "C03" {
+		rf = []int{1, 1, 2, 2, 3, 3, 3, 4, 5}[rng.Intn(9)] // small replication factors: every single change crosses the quorum
+	}
 	nb := int64(rng.Range(4, 16))
 	s.Cfg["rf"] = int64(rf)
 	s.Cfg["blocks"] = nb
@@ -1939,8 +1949,47 @@ func (clustersim) Generate(rng *Rand, prop, tier string) *Script {
 			wait()
 			continue
 		}
+		pStalled := 4
+		if prop == "C04" || prop == "C03" || prop == "C18" || prop == "C05" {
+			pStalled = 14
+		}
+		if rf >= 2 && rng.Bool(pStalled) {
+			// a replica whose monitor cannot react quickly (a ping is in flight and its reply is held) fails
+			// one call of a management operation with an error reply: the operation marks it ERR and it
+			// stays listed until the ping times out - the window in which a stale reader list or a stale RW
+			// count would show
+			for i, k := 0, rng.Range(0, 2); i < k; i++ {
+				genIO()
+			}
+			wait()
+			r := int64(rng.Intn(nreps))
+			add(Op{K: "stall", A: r, B: int64(rng.Intn(2))})
+			add(Op{K: "adv", A: int64(rng.Range(2500, 9000))})
+			d := int64(1)
+			if rng.Bool(25) {
+				d = 0
+			}
+			add(Op{K: "httpfault", A: r, B: 1, F: rng.Bool(50), C: int64([]int{1, 1, 1, 0, 2, 3}[rng.Intn(6)]), D: d})
+			if rng.Bool(60) {
+				snapID++
+				add(Op{K: "snap", A: snapID})
+			} else {
+				admin()
+			}
+			for i, k := 0, rng.Range(2, 6); i < k; i++ {
+				genIO()
+				if rng.Bool(40) {
+					add(Op{K: "adv", A: int64(rng.Range(100, 9000))})
+				}
+			}
+			wait()
+			continue
+		}
 		if prop == "C07" && rng.Bool(40) {
 			x = 70
+		}
+		if prop == "C03" && rng.Bool(15) {
+			x = 87 // cold start: the status is re-evaluated along the start conversation
 		}
 		switch {
 		case x >= 90: // management operations racing with I/O
@@ -1951,8 +2000,8 @@ func (clustersim) Generate(rng *Rand, prop, tier string) *Script {
 				// a replica fails while the management request is being processed
 				add(Op{K: "later", A: int64(rng.Intn(nreps)), B: int64(rng.Range(20, 3000)), S: []string{"kill", "resetconn"}[rng.Intn(2)]})
 			} else if rng.Bool(30) {
-				// one of the per-replica calls of the management operation is lost (request or response)
-				add(Op{K: "httpfault", A: int64(rng.Intn(nreps)), B: 1, F: rng.Bool(50), C: int64(rng.Intn(4))})
+				// one of the per-replica calls of the management operation is lost (request or response) or answered with an error
+				add(Op{K: "httpfault", A: int64(rng.Intn(nreps)), B: 1, F: rng.Bool(50), C: int64(rng.Intn(4)), D: int64(rng.Intn(2))})
 			}
 			admin()
 			if rng.Bool(30) {
@@ -1976,6 +2025,14 @@ func (clustersim) Generate(rng *Rand, prop, tier string) *Script {
 				add(Op{K: "kill", A: int64(r)})
 			}
 			add(Op{K: "adv", A: int64(rng.Range(100, 5000))})
+			if rng.Bool(40) {
+				// one call of the start conversation (register / start signal / open / revision counter / mode) is
+				// lost or answered with an error
+				add(Op{K: "httpfault", A: int64(rng.Intn(nreps)), B: 1, F: rng.Bool(50), C: int64(rng.Intn(16)), D: int64(rng.Intn(2))})
+			}
+			if rng.Bool(30) {
+				add(Op{K: "httpfault", A: int64(rng.Intn(nreps)), B: 1, C: int64(rng.Range(4, 16)), D: 1})
+			}
 			for _, r := range rng.Perm(nreps) {
 				add(Op{K: "restart", A: int64(r)})
 				add(Op{K: "adv", A: int64(rng.Range(1, 8000))})
